@@ -167,3 +167,17 @@ def sink_alloc_else_branch(sig, case):
     but leaves its uses on the old symbol (pinned by tests/golden/test_schedules/
     test_sink_alloc_when_if_has_else.txt)"""
     return sig.get("op") == "sink_alloc" and sig.get("monitor") == "validate" and sig.get("kind") == "use_out_of_scope" and _diag(sig).get("oos_binder") == "alloc"
+
+
+def iter_not_substituted_in_alloc_extent(sig, case):
+    """loop rewrites that substitute the iterator through cursors (divide_loop, ...) do not
+    reach the extent expressions inside an Alloc's type: an allocation whose extent mentions
+    the iterator keeps the old, now undeclared, symbol"""
+    d = _diag(sig)
+    return (
+        sig.get("monitor") == "validate"
+        and sig.get("kind") == "use_out_of_scope"
+        and d.get("oos_binder") == "iter"
+        and d.get("iter_in_alloc_extent")
+        and sig.get("op") in ("divide_loop", "divide_with_recompute", "mult_loops", "shift_loop", "cut_loop", "join_loops", "unroll_loop")
+    )
